@@ -667,7 +667,9 @@ impl<'a> Sem<'a> {
             Ty::Str => match self.rng.below(if deep { 2 } else { 9 }) {
                 0 | 1 => {
                     let v = self.fresh("s");
-                    self.w(&format!("\"{v}\""))
+                    // escape sequences, also right in front of the closing quote
+                    let esc = if self.rng.chance(1, 5) { ["\\\\", "\\\"", "a\\\"b", "\\t\\n", ":\\\\", "\\'", "\\\\\\\\"][self.rng.below(7)] } else { "" };
+                    self.w(&format!("\"{v}{esc}\""))
                 }
                 7 if self.on("getdagname-index") && !self.defs.is_empty() => {
                     let st = self.here();
